@@ -33,17 +33,17 @@ std::vector<B> divisors(std::uint64_t salt)
 {
     std::vector<B> v;
     if constexpr (sizeof(B) == 1) {
-        if (thorough()) {
-            return all_values<B>();
+        if (thorough() && sizeof(L) == 1) {
+            return all_values<B>();      // 8-bit dividend x 8-bit divisor: every pair
         }
     }
-    for (int k = 1; k <= (thorough() ? 9 : 5); ++k) {
+    for (int k = 1; k <= (thorough() ? 7 : 5); ++k) {
         v.push_back(static_cast<B>(k));
         if constexpr (is_signed_int<B>) {
             v.push_back(static_cast<B>(-k));
         }
     }
-    for (B b : operands<B>(thorough() ? 20 : 3, salt)) {
+    for (B b : operands<B>(thorough() ? 6 : 3, salt, 0)) {
         v.push_back(b);
     }
     return v;
@@ -58,14 +58,14 @@ std::vector<A> dividends(std::vector<B> const& bs, std::uint64_t salt)
     if constexpr (sizeof(A) == 1) {
         return all_values<A>();
     }
-    for (A a : operands<A>(thorough() ? 20 : 2, salt)) {
+    for (A a : operands<A>(thorough() ? 6 : 2, salt, 0)) {
         v.push_back(a);
     }
     i128 lo = static_cast<i128>(std::numeric_limits<A>::min());
     i128 hi = static_cast<i128>(std::numeric_limits<A>::max());
     int n = 0;
     for (B b : bs) {
-        if (++n > (thorough() ? 40 : 5)) {
+        if (++n > (thorough() ? 10 : 5)) {
             break;
         }
         i128 bb = static_cast<i128>(b);
@@ -118,7 +118,7 @@ void div_family(sink& out, int salt)
         using Res = cnl::_impl::rep_of_t<decltype(std::declval<WA>() / std::declval<WB>())>;
         int id = add_inst(out, ev("Inst").str("kind", "RDiv").str("op", "div").str("tag", rtag<Tag>()).str("api", "wrapper")
                                        .raw("lt", ty<A>()).raw("rt", ty<B>()).raw("res_t", ty<Res>()));
-        std::size_t stride = thorough() ? 1 : 5;
+        std::size_t stride = thorough() ? 3 : 5;
         for (std::size_t ia = 0; ia < as.size(); ia += stride) {
             for (B b : bs) {
                 if (b == 0) {
@@ -200,7 +200,7 @@ std::vector<F> tie_floats(int E, long long maxk)
     std::vector<long long> ks = {0, 1, 2, 3, 4, 5, 6, 7, 100, 101, 1000, 32766, 32767, 65535, 8388607, 8388608, 2147483646LL, 2147483647LL,
                                  4294967295LL, (1LL << 52) - 1, (1LL << 53) + 1, (1LL << 62) - 1};
     rng r(static_cast<std::uint64_t>(E) + 999);
-    for (int i = 0; i < (thorough() ? 60 : 8); ++i) {
+    for (int i = 0; i < (thorough() ? 24 : 8); ++i) {
         ks.push_back(static_cast<long long>(r.value<std::uint64_t>() >> 1));
     }
     for (long long k : ks) {
@@ -236,7 +236,7 @@ using SI = cnl::scaled_integer<Rep, cnl::power<E, R>>;
 template<class Tag, class Src, class Dst>
 void scaled_to(sink& out, int salt)
 {
-    auto vs = number_values<Src>(thorough() ? 200 : 30, static_cast<std::uint64_t>(salt), thorough() ? 2 : 1);
+    auto vs = number_values<Src>(thorough() ? 100 : 30, static_cast<std::uint64_t>(salt), thorough() ? 2 : 1);
     // small raw values cover every residue (incl. exact ties) for shifts up to 6 digits
     for (int k = -70; k <= 70; ++k) {
         using I = innermost_t<Src>;
@@ -278,13 +278,16 @@ void all_for_tag(sink& out)
     if (sizeof(L) != 8 || thorough()) {
         div_family<Tag, L, std::uint64_t>(out, LHS_INDEX * 10 + 3);
     }
+    if (sizeof(L) != 8 && (thorough() || !is_signed_int<L>)) {
+        // a strictly wider signed divisor: the common type is signed, so negative divisors are in the domain of an unsigned dividend
+        div_family<Tag, L, std::int64_t>(out, LHS_INDEX * 10 + 9);
+    }
     if (thorough()) {
         div_family<Tag, L, std::uint8_t>(out, LHS_INDEX * 10 + 4);
         div_family<Tag, L, std::int16_t>(out, LHS_INDEX * 10 + 5);
         div_family<Tag, L, std::uint16_t>(out, LHS_INDEX * 10 + 6);
         div_family<Tag, L, std::int32_t>(out, LHS_INDEX * 10 + 7);
         div_family<Tag, L, std::uint32_t>(out, LHS_INDEX * 10 + 8);
-        div_family<Tag, L, std::int64_t>(out, LHS_INDEX * 10 + 9);
     }
     others<Tag, L, std::int32_t>(out, 1);
     if (thorough()) {
